@@ -17,14 +17,16 @@ namespace Scenic.Interrupts
 def Bal (S : List Nat) : Out → Prop
   | .yielded _ k' lg => ∀ b, (K.subs k').count b + nStop b lg = S.count b + nStart b lg
   | .done _ lg => ∀ b, nStop b lg = S.count b + nStart b lg
-  | _ => True
+  /- the step ends with a guard violation (an exception that leaves every generator on its way) -/
+  | .viol _ lg => ∀ b, nStop b lg = S.count b + nStart b lg
+  | .diverge => True
 
 theorem Bal_pre {S S' : List Nat} {r : Out} {lg0 : List Ev} (h : Bal S' r)
     (h0 : ∀ b, S'.count b + nStop b lg0 = S.count b + nStart b lg0) : Bal S (r.pre lg0) := by
   cases r with
   | yielded a k lg => intro b; have := h b; have := h0 b; simp at *; omega
   | done f lg => intro b; have := h b; have := h0 b; simp at *; omega
-  | viol v lg => trivial
+  | viol v lg => intro b; have := h b; have := h0 b; simp at *; omega
   | diverge => trivial
 
 theorem nStop_stopsOf (cfg : Cfg) (hstop : cfg.stopInFinally = true) (b : Nat) (S : List Nat) :
@@ -35,11 +37,20 @@ theorem nStart_stopsOf (cfg : Cfg) (b : Nat) (S : List Nat) : nStart b (stopsOf 
   · exact nStart_map_stop b S
   · rfl
 
+theorem nStop_closeStops (cfg : Cfg) (hstop : cfg.stopInFinally = true) (hclose : cfg.closeBlocks = true) (b : Nat)
+    (S : List Nat) : nStop b (closeStops cfg S) = S.count b := by
+  simp [closeStops, hclose, nStop_stopsOf cfg hstop]
+
+theorem nStart_closeStops (cfg : Cfg) (b : Nat) (S : List Nat) : nStart b (closeStops cfg S) = 0 := by
+  unfold closeStops; split
+  · exact nStart_stopsOf cfg b S
+  · rfl
+
 theorem count_single (b b' : Nat) : List.count b' [b] = if b = b' then 1 else 0 := by
   by_cases h : b = b' <;> simp [List.count_cons, h]
 
 /-- **abandoned_subs_stopped** (invariant form). -/
-theorem balance (cfg : Cfg) (hstop : cfg.stopInFinally = true) (P : Prog) (env : Env)
+theorem balance (cfg : Cfg) (hstop : cfg.stopInFinally = true) (hclose : cfg.closeBlocks = true) (P : Prog) (env : Env)
     (fuel self : Nat) (inSub : Bool) (task : Task) :
     Bal task.subs (go cfg P env fuel self inSub task) := by
   fun_induction go cfg P env fuel self inSub task
@@ -55,9 +66,18 @@ theorem balance (cfg : Cfg) (hstop : cfg.stopInFinally = true) (P : Prog) (env :
     intro b'; have := ih2 b'
     simp [Task.subs, K.subs, List.count_append, nStop_stopsOf cfg hstop, nStart_stopsOf] at *
     omega
-  case case5 => trivial
+  case case5 b sub l c v lg x ih =>
+    rw [x] at ih
+    intro b'; have := ih b'
+    simp [Task.subs, K.subs, List.count_append, nStop_stopsOf cfg hstop, nStart_stopsOf] at *
+    omega
   case case6 => trivial
-  case case7 => trivial
+  case case7 self _ kind body hs l c busy h lg v x =>
+    intro b
+    have := invCheck_noStartStop P env self b
+    rw [x] at this
+    simp [Task.subs, K.subs, List.count_append, nStop_closeStops cfg hstop hclose, nStart_closeStops] at *
+    omega
   case case8 self _ kind body hs l c busy h lg x ih =>
     refine Bal_pre ih ?_
     intro b
@@ -71,14 +91,22 @@ theorem balance (cfg : Cfg) (hstop : cfg.stopInFinally = true) (P : Prog) (env :
   case case13 ih => simpa [Task.subs] using ih
   case case14 ih => simpa [Task.subs] using ih
   case case15 => intro b; simp [Task.subs, K.subs]
-  case case16 => trivial
+  case case16 self _ l c lg v x =>
+    intro b
+    have := invCheck_noStartStop P env self b
+    rw [x] at this
+    simp [Task.subs] at *; omega
   case case17 self _ l c lg x ih =>
     refine Bal_pre ih ?_
     intro b
     have := invCheck_noStartStop P env self b
     rw [x] at this
     simp [Task.subs] at *; omega
-  case case18 => trivial
+  case case18 b l c lg v hs =>
+    intro b'
+    have h2 := startChecks_noStartStop cfg P env b b'
+    rw [hs] at h2
+    simp [Task.subs] at *; omega
   case case19 b l c lg hs a k' lg' x ih =>
     rw [x] at ih
     intro b'
@@ -96,7 +124,14 @@ theorem balance (cfg : Cfg) (hstop : cfg.stopInFinally = true) (P : Prog) (env :
     rw [hs] at h2
     simp [Task.subs, count_single, nStop_stopsOf cfg hstop, nStart_stopsOf] at *
     omega
-  case case21 => trivial
+  case case21 b l c lg hs v lg' x ih =>
+    rw [x] at ih
+    intro b'
+    have := ih b'
+    have h2 := startChecks_noStartStop cfg P env b b'
+    rw [hs] at h2
+    simp [Task.subs, count_single, nStop_stopsOf cfg hstop, nStart_stopsOf] at *
+    omega
   case case22 => trivial
   case case23 ih => simpa [Task.subs] using ih
   case case24 ih => simpa [Task.subs] using ih
@@ -202,7 +237,40 @@ theorem balance (cfg : Cfg) (hstop : cfg.stopInFinally = true) (P : Prog) (env :
       rw [hb] at h1
       simp [Task.subs, List.count_append, ho, nStop_stopsOf cfg hstop, nStart_stopsOf] at *
       omega
-  case case33 => trivial
+  case case33 self inSub kind body hs l c i blk inSub' r v lg hr ih2 ih1 =>
+    have hblk : Bal (blkSubs blk) r := by
+      rw [blkSubs_eq]
+      show Bal (optSubs blk.st) (match blk.st with
+        | some k => go cfg P env _ self inSub' (.resume k)
+        | none => go cfg P env _ self inSub' (.exec blk.code []))
+      cases blk.st with
+      | none => simpa [optSubs, Task.subs] using ih1
+      | some k => simpa [optSubs, Task.subs] using ih2 k
+    rw [hr] at hblk
+    intro b; have h1 := hblk b
+    cases hp : pick cfg env hs with
+    | none =>
+      have hb : blk = body := by
+        show (match pick cfg env hs with | none => body | some i => hs.getD i body) = _
+        rw [hp]
+      have ho : otherSubs body hs i = blksSubs hs := by
+        show otherSubs body hs (pick cfg env hs) = _
+        rw [hp]; rfl
+      rw [hb] at h1
+      simp [Task.subs, List.count_append, ho, nStop_closeStops cfg hstop hclose, nStart_closeStops] at *
+      omega
+    | some ci =>
+      have hlt := pick_lt cfg env hs ci hp
+      have hb : blk = hs.getD ci default := by
+        show (match pick cfg env hs with | none => body | some i => hs.getD i body) = _
+        rw [hp]; exact getD_eq_of_lt hs ci _ _ hlt
+      have ho : otherSubs body hs i = blkSubs body ++ blksSubs (hs.eraseIdx ci) := by
+        show otherSubs body hs (pick cfg env hs) = _
+        rw [hp]; rfl
+      have h2 := count_blksSubs_eraseIdx b hs ci hlt
+      rw [hb] at h1
+      simp [Task.subs, List.count_append, ho, nStop_closeStops cfg hstop hclose, nStart_closeStops] at *
+      omega
   case case34 => trivial
 
 end Scenic.Interrupts
@@ -213,7 +281,7 @@ def stSubs : Option Task → List Nat
   | some task => task.subs
   | none => []
 
-theorem simLoop_balance (cfg : Cfg) (hstop : cfg.stopInFinally = true) (P : Prog) (envAt : Nat → Env)
+theorem simLoop_balance (cfg : Cfg) (hstop : cfg.stopInFinally = true) (hclose : cfg.closeBlocks = true) (P : Prog) (envAt : Nat → Env)
     (fuel main : Nat) :
     ∀ (n t : Nat) (st : Option Task) (pend : List Ev), (∀ b, nStop b pend = nStart b pend) →
       (simLoop cfg P envAt fuel main n t st pend).outcome = .ok →
@@ -226,20 +294,20 @@ theorem simLoop_balance (cfg : Cfg) (hstop : cfg.stopInFinally = true) (P : Prog
     cases st <;> simp [simLoop, stSubs] <;> omega
   | n + 1, t, none, pend => by
     intro hp h b
-    have ih := simLoop_balance cfg hstop P envAt fuel main n (t + 1) none [] (by simp) (by simpa [simLoop] using h) b
+    have ih := simLoop_balance cfg hstop hclose P envAt fuel main n (t + 1) none [] (by simp) (by simpa [simLoop] using h) b
     have := hp b
     simp [simLoop, stSubs] at ih ⊢
     omega
   | n + 1, t, some task, pend => by
     intro hp h b
-    have hb := balance cfg hstop P (envAt t) fuel main false task
+    have hb := balance cfg hstop hclose P (envAt t) fuel main false task
     have := hp b
     unfold simLoop at h ⊢
     cases hg : go cfg P (envAt t) fuel main false task with
     | yielded a k lg =>
       rw [hg] at hb
       simp only [hg] at h ⊢
-      have ih := simLoop_balance cfg hstop P envAt fuel main n (t + 1) (some (.resume k)) [] (by simp) h b
+      have ih := simLoop_balance cfg hstop hclose P envAt fuel main n (t + 1) (some (.resume k)) [] (by simp) h b
       have := hb b
       have e : (Task.resume k).subs = K.subs k := rfl
       simp [stSubs, e] at ih ⊢
@@ -247,7 +315,7 @@ theorem simLoop_balance (cfg : Cfg) (hstop : cfg.stopInFinally = true) (P : Prog
     | done f lg =>
       rw [hg] at hb
       simp only [hg] at h ⊢
-      have ih := simLoop_balance cfg hstop P envAt fuel main n (t + 1) none [] (by simp) h b
+      have ih := simLoop_balance cfg hstop hclose P envAt fuel main n (t + 1) none [] (by simp) h b
       have := hb b
       simp [stSubs] at ih ⊢
       omega
@@ -256,7 +324,7 @@ theorem simLoop_balance (cfg : Cfg) (hstop : cfg.stopInFinally = true) (P : Prog
 
 /-- **abandoned_subs_stopped** (whole simulation): in every completed simulation of every program, every
     sub-behaviour that was started has been stopped, except those still in progress at the end. -/
-theorem simulate_balance (cfg : Cfg) (hstop : cfg.stopInFinally = true) (P : Prog) (envAt : Nat → Env)
+theorem simulate_balance (cfg : Cfg) (hstop : cfg.stopInFinally = true) (hclose : cfg.closeBlocks = true) (P : Prog) (envAt : Nat → Env)
     (fuel main steps : Nat) (hok : (simulate cfg P envAt fuel main steps).outcome = .ok) (b : Nat) :
     nStart b (simulate cfg P envAt fuel main steps).events.flatten
       = nStop b (simulate cfg P envAt fuel main steps).events.flatten
@@ -270,8 +338,74 @@ theorem simulate_balance (cfg : Cfg) (hstop : cfg.stopInFinally = true) (P : Pro
     | some v => simp [hsc] at hok
     | none =>
       simp only [hsc] at hok ⊢
-      have := simLoop_balance cfg hstop P envAt fuel main steps 0 _ lg
+      have := simLoop_balance cfg hstop hclose P envAt fuel main steps 0 _ lg
         (by intro b; have := hs b; simp at this; omega) hok b
+      simp [stSubs, Task.subs] at this
+      omega
+
+/-- ... and when the simulation ends with a guard violation instead (an exception travelling out of all the
+    generators), nothing is left running either -/
+theorem simLoop_balance_viol (cfg : Cfg) (hstop : cfg.stopInFinally = true) (hclose : cfg.closeBlocks = true) (P : Prog)
+    (envAt : Nat → Env) (fuel main : Nat) :
+    ∀ (n t : Nat) (st : Option Task) (pend : List Ev) (v : Viol) (t' : Nat), (∀ b, nStop b pend = nStart b pend) →
+      (simLoop cfg P envAt fuel main n t st pend).outcome = .violation v t' →
+      ∀ b, nStop b (simLoop cfg P envAt fuel main n t st pend).events.flatten
+          = (stSubs st).count b + nStart b (simLoop cfg P envAt fuel main n t st pend).events.flatten
+  | 0, t, st, pend, v, t' => by
+    intro _ h; simp [simLoop] at h
+  | n + 1, t, none, pend, v, t' => by
+    intro hp h b
+    have ih := simLoop_balance_viol cfg hstop hclose P envAt fuel main n (t + 1) none [] v t' (by simp)
+      (by simpa [simLoop] using h) b
+    have := hp b
+    simp [simLoop, stSubs] at ih ⊢
+    omega
+  | n + 1, t, some task, pend, v, t' => by
+    intro hp h b
+    have hb := balance cfg hstop hclose P (envAt t) fuel main false task
+    have := hp b
+    unfold simLoop at h ⊢
+    cases hg : go cfg P (envAt t) fuel main false task with
+    | yielded a k lg =>
+      rw [hg] at hb
+      simp only [hg] at h ⊢
+      have ih := simLoop_balance_viol cfg hstop hclose P envAt fuel main n (t + 1) (some (.resume k)) [] v t' (by simp) h b
+      have := hb b
+      have e : (Task.resume k).subs = K.subs k := rfl
+      simp [stSubs, e] at ih ⊢
+      omega
+    | done f lg =>
+      rw [hg] at hb
+      simp only [hg] at h ⊢
+      have ih := simLoop_balance_viol cfg hstop hclose P envAt fuel main n (t + 1) none [] v t' (by simp) h b
+      have := hb b
+      simp [stSubs] at ih ⊢
+      omega
+    | viol v' lg =>
+      rw [hg] at hb
+      have := hb b
+      simp [stSubs] at *
+      omega
+    | diverge => simp [hg] at h
+
+/-- **abandoned_subs_stopped** (exceptional exit): when a simulation is ended by a guard violation at step `t`,
+    every sub-behaviour that was started -- in whatever block of whatever statement, pre-empted or running -- has been stopped by the time the violation is reported. -/
+theorem simulate_balance_viol (cfg : Cfg) (hstop : cfg.stopInFinally = true) (hclose : cfg.closeBlocks = true) (P : Prog)
+    (envAt : Nat → Env) (fuel main steps : Nat) (v : Viol) (t : Nat)
+    (hv : (simulate cfg P envAt fuel main steps).outcome = .violation v t) (b : Nat) :
+    nStart b (simulate cfg P envAt fuel main steps).events.flatten
+      = nStop b (simulate cfg P envAt fuel main steps).events.flatten := by
+  unfold simulate at hv ⊢
+  have hs := startChecks_noStartStop cfg P (envAt 0) main
+  cases hsc : startChecks cfg P (envAt 0) main with
+  | mk lg v0 =>
+    rw [hsc] at hs
+    cases v0 with
+    | some v0 => have := hs b; simp at this ⊢; omega
+    | none =>
+      simp only [hsc] at hv ⊢
+      have := simLoop_balance_viol cfg hstop hclose P envAt fuel main steps 0 _ lg v t
+        (by intro b; have := hs b; simp at this; omega) hv b
       simp [stSubs, Task.subs] at this
       omega
 
